@@ -27,9 +27,18 @@ func VH_C10_load_vs_admission() {
 		defer wg.Done()
 		dst.ab.LoadDag(func(err error) { cause = err }, ch)
 	}()
-	go func() { // a gossiped vertex issued by the genesis wallet (data-only, so funds never evict it)
+	gossipKind := verifrt.Choose("gossiped", 3)
+	go func() { // a gossiped vertex that breaks an identity rule (data-only, so funds never evict it)
 		defer wg.Done()
-		in := vhTransfer(7, vhGenesisAddr, "B", spice.Melange{}, []byte{1}, vhPeerAddr, 52)
+		var in *Vertex
+		switch gossipKind {
+		case 0: // issued by the genesis wallet
+			in = vhTransfer(7, vhGenesisAddr, "B", spice.Melange{}, []byte{1}, vhPeerAddr, 52)
+		case 1: // sealed by its own issuer
+			in = vhTransfer(7, vhPeerAddr, "B", spice.Melange{}, []byte{1}, vhPeerAddr, 52)
+		default: // empty transaction
+			in = vhTransfer(7, "A", "B", spice.Melange{}, nil, vhPeerAddr, 52)
+		}
 		in.LeftParentHash, in.RightParentHash = src.recs[1].v.Hash, src.recs[1].v.Hash
 		eGossip = dst.ab.AddLeaf(context.Background(), in)
 	}()
@@ -46,8 +55,11 @@ func VH_C10_load_vs_admission() {
 	close(ch)
 	wg.Wait()
 	verifrt.Assert(cause == nil && dst.ab.DagLoaded(), "C10/load-race/loaded")
-	verifrt.Assert(eGossip != nil, "C10/load-race/genesis-issued-gossip-refused")
+	verifrt.Assert(eGossip != nil, "C10/load-race/rule-breaking-gossip-refused")
 	verifrt.Assert(eProposal != nil, "C10/load-race/genesis-issued-proposal-refused")
 	dst.vhCheck("C10", "load-race")
+	for i := 0; i < 3 && dst.vhRetryOnce(); i++ { // whatever was parked meanwhile is retried by the orphan buffer
+	}
+	dst.vhCheck("C10", "load-race-after-retries")
 	verifrt.Reach("C10/load-race/end")
 }
